@@ -59,16 +59,19 @@ func Respace(t *rapid.T, ps []Piece, o RenderOpts) string {
 	if o.Plain {
 		return ""
 	}
-	switch rapid.IntRange(0, 7).Draw(t, "tail") {
-	case 0, 1:
+	if rapid.IntRange(0, 3).Draw(t, "tail") == 0 {
 		return trivia(t, o, true)
-	case 2:
-		if !o.NoComments {
-			// a line comment that runs to the end of the input (no newline), bodies down to the empty one
-			return trivia(t, o, true) + rapid.SampledFrom([]string{"#", "--", "//"}).Draw(t, "tail.opener") + commentBody(t, false)
-		}
 	}
 	return ""
+}
+
+// EOFComment is, one time in three, white space and a line comment that runs to the end of the input (no newline; bodies down to
+// the empty one). Only for texts that are parsed as they are: appended to a sentence that is then joined with others it would swallow them.
+func EOFComment(t *rapid.T) string {
+	if rapid.IntRange(0, 2).Draw(t, "eof-comment") != 0 {
+		return ""
+	}
+	return rapid.SampledFrom(wsChoices).Draw(t, "ws") + rapid.SampledFrom([]string{"#", "--", "//"}).Draw(t, "eof-comment.opener") + commentBody(t, false)
 }
 
 // Recase draws new letter case for every keyword / pseudo keyword piece.
